@@ -100,9 +100,9 @@ theorem connect_facts (W : World) (s : List Ev) :
 
 
 structure InvFacts (k : Kind) (tok : Nat) (W : World) (s : List Ev) (o : Outcome) (W' : World) (s' : List Ev) : Prop where
-  logGrow : W'.log = W.log ∨ W'.log = tok :: W.log
-  logNone : o = .none_ → W'.log = tok :: W.log
-  logRet : ∀ k' t', o = .returned k' t' → W'.log = tok :: W.log
+  logGrow : W'.log = W.log ∨ W'.log = logAfter k tok W.log
+  logNone : o = .none_ → W'.log = logAfter k tok W.log
+  logRet : ∀ k' t', o = .returned k' t' → W'.log = logAfter k tok W.log
   logOnewayFail : k.isOneway = true → ∀ e, o = .failed e → W'.log = W.log
   released : ∀ e, o = .failed e → W'.pc.isLive = false
   suffix : ∃ pre, s = pre ++ s'
@@ -114,7 +114,7 @@ structure InvFacts (k : Kind) (tok : Nat) (W : World) (s : List Ev) (o : Outcome
 section
 variable {k : Kind} {tok : Nat} {W W' : World} {s s' : List Ev}
 
-theorem InvFacts.mk_none (hk : k.isOneway = true) (hlog : W'.log = tok :: W.log) (hr : W'.reads = W.reads)
+theorem InvFacts.mk_none (hk : k.isOneway = true) (hlog : W'.log = logAfter k tok W.log) (hr : W'.reads = W.reads)
     (hs : ∃ pre, s = pre ++ s') : InvFacts k tok W s .none_ W' s' where
   logGrow := Or.inr hlog
   logNone := fun _ => hlog
@@ -140,7 +140,7 @@ theorem InvFacts.mk_failed0 (e : Err) (hlog : W'.log = W.log) (hpc : W'.pc.isLiv
   onewayOut := fun _ _ _ => by simp
   twowayOut := fun _ => by simp
 
-theorem InvFacts.mk_failed1 (e : Err) (hk : k.isOneway = false) (hlog : W'.log = tok :: W.log) (hpc : W'.pc.isLive = false)
+theorem InvFacts.mk_failed1 (e : Err) (hk : k.isOneway = false) (hlog : W'.log = logAfter k tok W.log) (hpc : W'.pc.isLive = false)
     (hs : ∃ pre, s = pre ++ s') : InvFacts k tok W s (.failed e) W' s' where
   logGrow := Or.inr hlog
   logNone := fun h => by cases h
@@ -153,7 +153,7 @@ theorem InvFacts.mk_failed1 (e : Err) (hk : k.isOneway = false) (hlog : W'.log =
   onewayOut := fun _ _ _ => by simp
   twowayOut := fun _ => by simp
 
-theorem InvFacts.mk_returned (k' : Kind) (t' : Nat) (hk : k.isOneway = false) (hlog : W'.log = tok :: W.log)
+theorem InvFacts.mk_returned (k' : Kind) (t' : Nat) (hk : k.isOneway = false) (hlog : W'.log = logAfter k tok W.log)
     (hs : ∃ pre, s = pre ++ s') : InvFacts k tok W s (.returned k' t') W' s' where
   logGrow := Or.inr hlog
   logNone := fun h => by cases h
@@ -196,7 +196,7 @@ theorem invokeOn_facts (k : Kind) (tok : Nat) (W : World) (c : Conn) (s : List E
           | exact .mk_failed0 _ rfl rfl rfl ⟨[_], rfl⟩
       · have hk' : k.isOneway = false := by simpa using hk
         have two : ∀ (m : Msg) (q : Nat) (Wf Wr : World),
-            Wf.log = tok :: W.log → Wf.pc.isLive = false → Wr.log = tok :: W.log →
+            Wf.log = logAfter k tok W.log → Wf.pc.isLive = false → Wr.log = logAfter k tok W.log →
             InvFacts k tok W (ev :: s')
               (if m.hs = true then (Outcome.failed Err.protocol, Wf, s')
                else if m.seq = q then (Outcome.returned m.kind m.tok, Wr, s') else (Outcome.failed Err.protocol, Wf, s')).1
@@ -465,11 +465,38 @@ theorem invoke_inv (k : Kind) (tok : Nat) (W : World) (s : List Ev) (hI : Inv W)
       rw [this.2.2 m hm] at hh
       cases hh
 
+theorem logAfter_exec {k : Kind} (tok : Nat) (log : List Nat) (h : k.executes = true) : logAfter k tok log = tok :: log := by
+  simp [logAfter, h]
+
+theorem logAfter_noexec {k : Kind} (tok : Nat) (log : List Nat) (h : k.executes = false) : logAfter k tok log = log := by
+  simp [logAfter, h]
+
+/-- one attempt, counted: the log grows by m ≤ 1 copies of the token -/
+theorem InvFacts.count {k : Kind} {tok : Nat} {W W' : World} {s s' : List Ev} {o : Outcome}
+    (h : InvFacts k tok W s o W' s') :
+    ∃ m, m ≤ 1 ∧ W'.log = List.replicate m tok ++ W.log ∧
+      (k.executes = true → o = .none_ → m = 1) ∧ (k.executes = true → ∀ k' t', o = .returned k' t' → m = 1) ∧
+      (k.isOneway = true → ∀ e, o = .failed e → m = 0) ∧ (k.executes = false → m = 0) := by
+  by_cases he : k.executes = true
+  · rcases h.logGrow with hl | hl
+    · refine ⟨0, Nat.zero_le _, by simpa using hl, ?_, ?_, fun _ _ _ => rfl, fun h' => by simp [he] at h'⟩
+      · intro _ ho; have := h.logNone ho; rw [hl, logAfter_exec _ _ he] at this; exact absurd this (by simp)
+      · intro _ k' t' ho; have := h.logRet k' t' ho; rw [hl, logAfter_exec _ _ he] at this; exact absurd this (by simp)
+    · rw [logAfter_exec _ _ he] at hl
+      refine ⟨1, Nat.le_refl _, by simpa using hl, fun _ _ => rfl, fun _ _ _ _ => rfl, ?_, fun h' => by simp [he] at h'⟩
+      intro hk e ho; have := h.logOnewayFail hk e ho; rw [hl] at this; exact absurd this (by simp)
+  · have he' : k.executes = false := by simpa using he
+    have hl : W'.log = W.log := by
+      rcases h.logGrow with hl | hl
+      · exact hl
+      · rw [hl, logAfter_noexec _ _ he']
+    exact ⟨0, Nat.zero_le _, by simpa using hl, fun h' => absurd h' he, fun h' => absurd h' he, fun _ _ _ => rfl, fun _ => rfl⟩
+
 /-- facts about a whole call (`bound` = number of attempts allowed) -/
 structure CallFacts (bound : Nat) (k : Kind) (tok : Nat) (W : World) (s : List Ev) (o : Outcome) (W' : World) (s' : List Ev) : Prop where
   log : ∃ m, m ≤ bound ∧ W'.log = List.replicate m tok ++ W.log ∧
-        (o = .none_ → 1 ≤ m) ∧ (∀ k' t', o = .returned k' t' → 1 ≤ m) ∧
-        (k.isOneway = true → m ≤ 1 ∧ ∀ e, o = .failed e → m = 0)
+        (k.executes = true → o = .none_ → 1 ≤ m) ∧ (k.executes = true → ∀ k' t', o = .returned k' t' → 1 ≤ m) ∧
+        (k.isOneway = true → m ≤ 1 ∧ ∀ e, o = .failed e → m = 0) ∧ (k.executes = false → m = 0)
   released : ∀ e, o = .failed e → W'.pc.isLive = false
   suffix : ∃ pre, s = pre ++ s'
   notStuck : o ≠ .stuck
@@ -480,12 +507,9 @@ structure CallFacts (bound : Nat) (k : Kind) (tok : Nat) (W : World) (s : List E
 theorem InvFacts.toCall {k : Kind} {tok : Nat} {W W' : World} {s s' : List Ev} {o : Outcome}
     (h : InvFacts k tok W s o W' s') (b : Nat) : CallFacts (b + 1) k tok W s o W' s' where
   log := by
-    rcases h.logGrow with hl | hl
-    · refine ⟨0, Nat.zero_le _, by simpa using hl, ?_, ?_, fun _ => ⟨Nat.zero_le _, fun _ _ => rfl⟩⟩
-      · intro ho; have := h.logNone ho; rw [hl] at this; exact absurd this (by simp)
-      · intro k' t' ho; have := h.logRet k' t' ho; rw [hl] at this; exact absurd this (by simp)
-    · refine ⟨1, by omega, by simpa using hl, fun _ => Nat.le_refl _, fun _ _ _ => Nat.le_refl _, fun hk => ⟨Nat.le_refl _, ?_⟩⟩
-      intro e he; have := h.logOnewayFail hk e he; rw [hl] at this; exact absurd this (by simp)
+    obtain ⟨m, hm, hlog, h1, h2, h3, h4⟩ := h.count
+    exact ⟨m, by omega, hlog, fun he ho => by have := h1 he ho; omega, fun he k' t' ho => by have := h2 he k' t' ho; omega,
+      fun hk => ⟨hm, h3 hk⟩, h4⟩
   released := h.released
   suffix := h.suffix
   notStuck := h.notStuck
@@ -513,15 +537,16 @@ theorem retryLoop_facts (k : Kind) (tok : Nat) (n : Nat) : ∀ (W : World) (s : 
         generalize retryLoop real k tok n W1 s1 = res2 at h2
         obtain ⟨o2, W2, s2⟩ := res2
         simp only at h2 ⊢
-        obtain ⟨m, hm, hlog, hnone, hret, how⟩ := h2.log
+        obtain ⟨m, hm, hlog, hnone, hret, how, hne⟩ := h2.log
+        obtain ⟨m1, hm1, hlog1, _, _, hf1, hne1⟩ := h1.count
         refine ⟨?_, h2.released, ?_, h2.notStuck, fun hk => (h2.reads hk).trans (h1.reads hk), h2.onewayOut, h2.twowayOut⟩
-        · rcases h1.logGrow with hl | hl
-          · exact ⟨m, by omega, by rw [hlog, hl], hnone, hret, how⟩
-          · refine ⟨m + 1, by omega, by rw [hlog, hl, List.replicate_succ']; simp, fun h => by omega, fun _ _ _ => by omega, ?_⟩
-            intro hk
-            have := h1.logOnewayFail hk e rfl
-            rw [hl] at this
-            exact absurd this (by simp)
+        · refine ⟨m + m1, by omega, by rw [hlog, hlog1, ← List.append_assoc, List.replicate_append_replicate],
+            fun he ho => by have := hnone he ho; omega, fun he k' t' ho => by have := hret he k' t' ho; omega, ?_,
+            fun he => by have := hne he; have := hne1 he; omega⟩
+          intro hk
+          have z := hf1 hk e rfl
+          have := how hk
+          exact ⟨by omega, fun e' he' => by have := this.2 e' he'; omega⟩
         · obtain ⟨p1, e1⟩ := h1.suffix
           obtain ⟨p2, e2⟩ := h2.suffix
           exact ⟨p1 ++ p2, by rw [e1, e2, List.append_assoc]⟩
@@ -581,7 +606,7 @@ theorem body_inv (retries : Nat) (k : Kind) (tok : Nat) (W : World) (s : List Ev
 
 theorem CallFacts.refused {b : Nat} {k : Kind} {tok : Nat} {W : World} {s : List Ev} (e : Err) (h : W.pc.isLive = false) :
     CallFacts b k tok W s (.failed e) W s where
-  log := ⟨0, Nat.zero_le _, rfl, (fun h => nomatch h), (fun _ _ h => nomatch h), fun _ => ⟨Nat.zero_le _, fun _ _ => rfl⟩⟩
+  log := ⟨0, Nat.zero_le _, rfl, (fun _ h => nomatch h), (fun _ _ _ h => nomatch h), (fun _ => ⟨Nat.zero_le _, fun _ _ => rfl⟩), fun _ => rfl⟩
   released := fun _ _ => h
   suffix := ⟨[], rfl⟩
   notStuck := by simp
@@ -614,8 +639,8 @@ theorem call_facts (retries : Nat) (k : Kind) (tok : Nat) (W : World) (s : List 
         | err o =>
           have := hc.err o rfl
           simp only at this ⊢
-          refine ⟨⟨0, Nat.zero_le _, by simpa using hc.log, fun h => absurd h this.2.2.1, fun k' t' h => absurd h (this.2.2.2 k' t'),
-            fun _ => ⟨Nat.zero_le _, fun _ _ => rfl⟩⟩, fun _ _ => by rw [this.1, hpc]; rfl, hc.suffix, this.2.1, fun _ => hc.reads,
+          refine ⟨⟨0, Nat.zero_le _, by simpa using hc.log, fun _ h => absurd h this.2.2.1, fun _ k' t' h => absurd h (this.2.2.2 k' t'),
+            (fun _ => ⟨Nat.zero_le _, fun _ _ => rfl⟩), fun _ => rfl⟩, fun _ _ => by rw [this.1, hpc]; rfl, hc.suffix, this.2.1, fun _ => hc.reads,
             fun _ k' t' => this.2.2.2 k' t', fun _ => this.2.2.1⟩
         | ok c =>
           simp only
@@ -688,7 +713,7 @@ theorem call_healthy (retries : Nat) (k : Kind) (tok : Nat) (W : World) (s : Lis
     (hpc : W.pc.isLive = false) (hk : k.precheck = false) :
     (call real retries k tok W (.ok :: .ok :: s)).1 = ownOutcome k tok ∧
     (call real retries k tok W (.ok :: .ok :: s)).2.2 = s ∧
-    (call real retries k tok W (.ok :: .ok :: s)).2.1.log = tok :: W.log ∧
+    (call real retries k tok W (.ok :: .ok :: s)).2.1.log = logAfter k tok W.log ∧
     (call real retries k tok W (.ok :: .ok :: s)).2.1.pc = .live ⟨[], false⟩ := by
   cases hp : W.pc with
   | live c => rw [hp] at hpc; cases hpc
@@ -701,6 +726,16 @@ theorem call_healthy (retries : Nat) (k : Kind) (tok : Nat) (W : World) (s : Lis
       simp [call, body, retryLoop, invoke, connect, invokeOn, deliver, hp, Kind.precheck, Kind.retried,
         Kind.isOneway, Ev.reachesServer, hsMsg, ownOutcome, real] at hk ⊢
 
+
+/-- the same on a live connection with nothing unread: one event is consumed -/
+theorem call_healthy_live (retries : Nat) (k : Kind) (tok : Nat) (W : World) (s : List Ev)
+    (hpc : W.pc = .live ⟨[], false⟩) :
+    (call real retries k tok W (.ok :: s)).1 = ownOutcome k tok ∧
+    (call real retries k tok W (.ok :: s)).2.2 = s ∧
+    (call real retries k tok W (.ok :: s)).2.1.log = logAfter k tok W.log ∧
+    (call real retries k tok W (.ok :: s)).2.1.pc = .live ⟨[], false⟩ := by
+  cases k <;> cases retries <;>
+    simp [call, body, retryLoop, invoke, invokeOn, deliver, hpc, Kind.retried, Kind.isOneway, Ev.reachesServer, ownOutcome, real]
 
 theorem invokeOn_seq (k : Kind) (tok : Nat) (W : World) (c : Conn) (s : List Ev)
     (h : (invokeOn real k tok W c s).1 ≠ .scriptEnd) :
